@@ -78,7 +78,7 @@ def seeds(rng):
 def gen(rng, tier):
     big = tier == "thorough"
     sd = seeds(rng)
-    n = 60 if not big else 1500
+    n = 60 if not big else 500
     for kind in ("sig", "apdu", "epdu", "pubf", "tlv"):
         pool = sd[kind]
         if not pool:
@@ -157,7 +157,7 @@ CONFIG.engines = [Engine("c12", ["exec_c12.c"], "drv_c12", gen, trivial=trivial,
                               "ASAN_OPTIONS": "detect_leaks=1:abort_on_error=0:exitcode=99:allocator_may_return_null=1:fast_unwind_on_malloc=0"})]
 CONFIG.rule = ("op lines from one PRNG (VERIF_SEED). Seeds: every .ksig / .gtts / PDU / publications file / other TLV file under test/resource/tlv (up to "
                "70000 octets) plus reference-built signatures, aggregation and extension PDUs (v1, v2) and a publications file; each seed as is and "
-               "60 (quick) / 1500 (thorough) structure-aware mutations per kind (bit flips, boundary octets, deletions, insertions, self-splices, "
+               "60 (quick) / 500 (thorough) structure-aware mutations per kind (bit flips, boundary octets, deletions, insertions, self-splices, "
                "truncation, extension). Entry points: KSI_Signature_parseWithPolicy (then serialize, clone, verification under all seven policies, "
                "identity extraction, getters, string rendering), KSI_AggregationPdu_parse / KSI_ExtendPdu_parse under both configured versions (then "
                "serialize, getters, MAC check), KSI_PublicationsFile_parse (then lookups, serialize, verify), KSI_TLV_parseBlob (then recursive nested "
@@ -180,5 +180,5 @@ CONFIG.technique = ("Lean 4 proofs of the readers' bounds logic (partial) + sani
 CONFIG.level_text = ("PARTIAL. Kernel-checked: the fast reader accepts a header only with header and payload inside the input; a blob is accepted only "
                      "when its declared length is exactly the input; children tile a payload exactly; publications-file records tile the file; an "
                      "oversize element is refused, never written truncated; all model parsers are total. Not provable in this technique: the C code's "
-                     "memory safety and leak freedom — observed under sanitizers on ~1500 (quick) / ~20000 (thorough) generated inputs across all entry points.")
+                     "memory safety and leak freedom — observed under sanitizers on ~1500 (quick) / ~8000 (thorough) generated inputs across all entry points.")
 CONFIG.level_note = ("Partial by nature: a functional model has no memory to corrupt. Trusted: Lean kernel + standard axioms; sanitizers for the runtime half.")
